@@ -273,7 +273,7 @@ def part_b_configs(tier):
     # (thread variants, granularity, preemption bound, array elements validated by each thread)
     if tier == "quick":
         return [((0, 1), "call", 2, 1), ((0, 1), "line", 1, 2), ((0, 1, 2), "call", 1, 2)]
-    return [((0, 1), "call", 2, 2), ((0, 1), "line", 2, 1), ((0, 1, 2), "call", 2, 1), ((1, 2), "line", 1, 2),
+    return [((0, 1), "call", 2, 2), ((0, 1), "line", 1, 2), ((0, 1, 2), "call", 2, 1), ((1, 2), "line", 1, 2),
             ((2, 0), "call", 2, 2)]
 
 
